@@ -15,6 +15,12 @@ NOTES = ("Every check: bin/check <ID> [--tier quick|thorough]; TLA+ specs under 
 NOT_APPLICABLE = {}
 
 CHECKS = {
+    "C01": {
+        "level": "model_checking",
+        "technique": "TLA+ code-shaped renderer model x executable screen model checked by TLC on the closure of small screens; real TerminalRenderer/run_render command streams executed on the TLA+ Screen and judged by TLC against Paint(surface) and the from-scratch repaint",
+        "text": "TLC proves Shown and SameAsScratch for the code-shaped two-pass diff (RenderImpl) on the closure (all histories of any length) of 1x3/1x4(/2x2, 2x3, 1x5, 1x6) screens and for run_render with a lossy frame queue (RenderLoop); the model is bound to the code by trace validation: thousands of real histories (all ordered pairs of TLC-generated surfaces on small screens, seeded random histories incl. clear/recreate/skip and ambiguous surfaces on screens up to 4x6, real run_render sessions with drops and resizes) are executed command by command on Screen.tla and must match the surface's denotation and the from-scratch screen; the model's predicted screen is compared too (drift).",
+        "note": "Trusts Screen.tla as the reference terminal and the harness's projection of commands/cells (fixed tables, images by content). Known findings: overlapping image footprints; stale placements after a frame drop.",
+    },
     "C08": {
         "level": "exploration",
         "technique": "TLA+ slice spec model-checked against an element-wise reading of Python slicing; TLC-generated selector vectors replayed through view_bounds in all 10 integer types; TLC judge",
